@@ -503,19 +503,33 @@ class SVG:
         # capture elements by id so even if we change it they remain stable
         el_by_id = {el.attrib["id"]: el for el in self.xpath(".//svg:*[@id]")}
 
-        # Every pass instantiates one level of nesting, so an acyclic document
-        # needs at most one pass per <use> it contains; more means a reference cycle
-        max_passes = len(self.xpath("//svg:use")) + 1
-        num_passes = 0
+        # Instantiating a cycle of <use> references never ends (and grows doubly
+        # exponentially when an element refers to itself more than once), so
+        # reject it up front: peel off targets that instantiate nothing pending.
+        href = _xlink_href_attr_name()
+        pending = {
+            id_: {
+                use.attrib.get(href, "")[1:]
+                for use in el.iter(f"{{{svgns()}}}use")  # includes el itself
+            }
+            & el_by_id.keys()
+            for id_, el in el_by_id.items()
+        }
+        while pending:
+            resolvable = {id_ for id_, targets in pending.items() if not targets}
+            if not resolvable:
+                raise ValueError("Unable to resolve <use>: cyclic reference")
+            pending = {
+                id_: targets - resolvable
+                for id_, targets in pending.items()
+                if id_ not in resolvable
+            }
 
         while True:
             swaps = []
             use_els = list(self.xpath(".//svg:use", el=scope_el))
             if not use_els:
                 break
-            num_passes += 1
-            if num_passes > max_passes:
-                raise ValueError("Unable to resolve <use>: cyclic reference")
             for use_el in use_els:
                 ref = use_el.attrib.get(_xlink_href_attr_name(), "")
                 if not ref.startswith("#"):
